@@ -241,12 +241,12 @@ class Interp:
                 return PYTYPES[n]
             if n in self.ext:
                 return Stub(n, self.ext[n])
-            b = BUILTINS.get(n)
-            if b is not None:
-                return Stub(n, b)
             hl = self.higher_order(n)
             if hl is not None:
                 return Stub(n, hl)
+            b = BUILTINS.get(n)
+            if b is not None:
+                return Stub(n, b)
             lv = _lib_value(n)
             if lv is not None:
                 return lv if isinstance(lv, type) else Stub(n, lv)
@@ -678,6 +678,13 @@ class Interp:
                         v.attrs["__enter__"].fn()
                         if isinstance(v.attrs.get("__exit__"), Stub):
                             exits.append(lambda *exc, _x=v.attrs["__exit__"]: _x.fn())
+                    elif isinstance(v, Obj) and v.cls is not None and isinstance(v.cls.lookup("__enter__"), Func) and isinstance(v.cls.lookup("__exit__"), Func):
+                        # an instance of a class of the package that is a context manager: its own __enter__ / __exit__ are interpreted
+                        bound = self.call_func(v.cls.lookup("__enter__"), None, [], {}, bound_self=v)
+
+                        def _exit(et, ev, tb, _v=v):
+                            return self.truth(self.call_func(_v.cls.lookup("__exit__"), None, [et, ev, tb], {}, bound_self=_v))
+                        exits.append(_exit)
                     elif isinstance(v, Native) and hasattr(v, "__enter__"):
                         # a checker-side model of a library context manager (e.g. contextlib.ExitStack)
                         bound = v.__enter__()
@@ -708,6 +715,33 @@ class Interp:
         elif isinstance(s, ast.Assert):
             if not self.truth(self.eval(s.test, env)):
                 raise AbsRaise("AssertionError")
+        elif isinstance(s, ast.Delete):
+            for t in s.targets:
+                if isinstance(t, ast.Subscript):
+                    c_ = self.eval(t.value, env)
+                    k_ = self.eval(t.slice, env)
+                    if isinstance(c_, Native) and hasattr(c_, "__delitem__"):
+                        c_.__delitem__(k_)
+                    elif isinstance(c_, (dict, list)):
+                        try:
+                            del c_[k_]
+                        except (KeyError, IndexError) as ex_:
+                            raise AbsRaise(f"{type(ex_).__name__}: {ex_}")
+                    else:
+                        raise AnalysisError(f"evaluator: `{norm(s)}` on {type(c_).__name__}")
+                elif isinstance(t, ast.Name):
+                    e_, _v = env.lookup(t.id)
+                    if e_ is None:
+                        raise AbsRaise(f"NameError: {t.id}")
+                    del e_.vars[t.id]
+                elif isinstance(t, ast.Attribute):
+                    o_ = self.eval(t.value, env)
+                    if isinstance(o_, Obj) and t.attr in o_.attrs:
+                        del o_.attrs[t.attr]
+                    else:
+                        raise AbsRaise(f"AttributeError: {t.attr}")
+                else:
+                    raise AnalysisError(f"evaluator: statement `{norm(s)}` outside the supported language")
         else:
             raise AnalysisError(f"evaluator: statement `{norm(s)}` outside the supported language")
 
@@ -731,6 +765,10 @@ class Interp:
             o = self.eval(t.value, env)
             if isinstance(o, Obj):
                 o.attrs[t.attr] = v
+            elif isinstance(o, str) and t.attr in ("__context__", "__cause__", "__traceback__", "__suppress_context__"):
+                if not hasattr(self, "_exc_attrs"):
+                    self._exc_attrs = {}
+                self._exc_attrs[(o, t.attr)] = v
             else:
                 raise AnalysisError(f"evaluator: attribute store on {o!r}")
         elif isinstance(t, ast.Subscript):
@@ -1051,7 +1089,7 @@ class Interp:
                     if g[0] == "class":
                         return self.class_val(g[1])
                     if g[0] == "ext":
-                        fb = self.ext.get(g[1]) or BUILTINS.get(g[1]) or self.higher_order(g[1])
+                        fb = self.ext.get(g[1]) or self.higher_order(g[1]) or BUILTINS.get(g[1])
                         if fb is None:
                             lv = _lib_value(g[1])
                             if isinstance(lv, type):
@@ -1066,7 +1104,7 @@ class Interp:
             return "user_module" if attr == "__module__" else o.name
         if isinstance(o, Stub):
             n = f"{o.name}.{attr}"
-            fb = self.ext.get(n) or BUILTINS.get(n) or self.higher_order(n)
+            fb = self.ext.get(n) or self.higher_order(n) or BUILTINS.get(n)
             if fb is None:
                 lv = _lib_value(n)
                 if isinstance(lv, type):
@@ -1082,6 +1120,10 @@ class Interp:
         if isinstance(o, str) and attr in ("join", "startswith", "endswith", "format", "replace", "split", "strip"):
             return getattr(o, attr)
         import collections as _cl
+        if isinstance(o, list) and attr == "sort":
+            def _sort(key=None, reverse=False, _o=o):
+                _o.sort(key=(lambda x: self.call(key, [x], {})) if key is not None else None, reverse=reverse)
+            return Stub("list.sort", _sort)
         if isinstance(o, (dict, list, set, frozenset, tuple, _cl.deque)) and not attr.startswith("_") and attr not in ("sort",):
             try:
                 return getattr(o, attr)
@@ -1091,6 +1133,9 @@ class Interp:
             return getattr(o, attr)
         if o is None:
             raise AbsRaise(f"AttributeError: NoneType.{attr}")
+        if isinstance(o, str) and attr in ("__context__", "__cause__", "__traceback__", "__suppress_context__", "__notes__"):
+            # an abstract exception given only by its name ("KeyError: x"): the chaining attributes it carries are kept beside it
+            return getattr(self, "_exc_attrs", {}).get((o, attr), False if attr == "__suppress_context__" else None)
         raise AnalysisError(f"evaluator: attribute {attr} of {o!r} ({norm(node) if node is not None else ''})")
 
 
@@ -1192,7 +1237,6 @@ BUILTINS = {
     "builtins.isinstance": None,
     "builtins.enumerate": lambda x, start=0: list(enumerate(x, start)),
     "builtins.reversed": lambda x: list(reversed(x)),
-    "builtins.sorted": lambda x, key=None: sorted(x),
     "builtins.str": lambda x="": str(x),
     "builtins.int": lambda x=0: int(x),
     "builtins.repr": lambda x: repr(x),
